@@ -56,6 +56,8 @@ pub struct Ev {
 pub struct Ctx {
     pub log: Mutex<Vec<Ev>>,
     pub ident: AtomicBool,
+    /// the system with this uid panics inside its next run (once); NONE = nobody
+    pub panic_uid: AtomicUsize,
     pub rv_x: AtomicUsize,
     pub rv_y: AtomicUsize,
     pub entered_x: AtomicBool,
@@ -74,6 +76,7 @@ impl Ctx {
         Arc::new(Ctx {
             log: Mutex::new(vec![]),
             ident: AtomicBool::new(false),
+            panic_uid: AtomicUsize::new(NONE),
             rv_x: AtomicUsize::new(NONE),
             rv_y: AtomicUsize::new(NONE),
             entered_x: AtomicBool::new(false),
@@ -92,6 +95,9 @@ impl Ctx {
     }
     /// both members of the rendezvous pair stay inside `run` until the other one has entered (or the hold expires)
     pub fn hold(&self, uid: usize) {
+        if uid != NONE && self.panic_uid.compare_exchange(uid, NONE, Ordering::SeqCst, Ordering::SeqCst).is_ok() {
+            panic!("armed panic of harness system #{}", uid);
+        }
         let g = self.gate_ms.load(Ordering::SeqCst);
         if g > 0 {
             let end = Instant::now() + Duration::from_millis(g as u64);
